@@ -13,7 +13,7 @@ one() {
   d=/tmp/ms/$name; rm -rf $d; mkdir -p $d/verif/evidence
   rsync -a --exclude .git /repo/ $d/repo/
   cp /verif/known_findings.json $d/verif/
-  ln -s /verif/checker $d/verif/checker
+  ln -s ${GTVERIF_CHECKER:-/verif/checker} $d/verif/checker
   if ! (cd $d/repo && patch -p1 -s -f < "$patch" >/dev/null 2>$d/err); then echo "$name: PATCH-FAILS $(head -2 $d/err | tr '\n' ' ')"; rm -rf $d; return; fi
   fired=""
   for p in $props; do
